@@ -9,6 +9,17 @@ from .core import SimBudget, digest_arrays, digest_field, tol, ulp
 GUARD_ULPS = 16
 
 
+def feq(a, b):
+    """Float equality that treats NaN as equal to NaN (bit-identity is what matters)."""
+    a, b = float(a), float(b)
+    return a == b or (a != a and b != b)
+
+
+def okey(o):
+    """NaN-safe comparison key of a field observation (digest, time, it)."""
+    return None if o is None else (o[0], float(o[1]).hex(), o[2])
+
+
 class V:
     """One violation."""
 
@@ -67,6 +78,8 @@ def check_c07(r, ex, stats):
     for s in tr.steps:
         if s.status != "ok":
             continue
+        if not (math.isfinite(s.t_in) and math.isfinite(s.dtmin)):
+            continue  # inadmissible input to step() (NaN time step from an unphysical state)
         stats["T1"] += 1
         exp = s.t_in + s.dtmin
         if not (math.isfinite(s.t_out) and abs(s.t_out - exp) <= tol(s.t_in, s.dtmin, s.t_out, exp)):
@@ -80,12 +93,30 @@ def check_c07(r, ex, stats):
 
     # ---- T8: the caller's initial field is never modified (any outcome) -------
     stats["T8"] += 1
-    if r.f_before != r.f_after:
+    if okey(r.f_before) != okey(r.f_after):
         bad("T8", "caller's initial field changed: %r -> %r" % (r.f_before, r.f_after),
             "%s/%s" % (cls, r.outcome))
 
     if isinstance(r.exc, SimBudget) or tr.budget_hit:
-        bad("T9", "call did not terminate within the tick budget (%d ticks)" % tr.counts["tick"])
+        fin = all(s.finite_out for s in tr.steps if s.status == "ok") and \
+            all(bool(np.all(np.isfinite(t.dt))) and t.dtmin > 0 for t in tr.ticks)
+        # time a correct driver must have covered after that many ticks, each >= the smallest observed
+        nt = len(tr.ticks)
+        hmin_obs = min([t.dtmin for t in tr.ticks]) if tr.ticks else 0.0
+        if r.stop and "tottime" in r.stop:
+            Tb = r.stop["tottime"]
+        else:
+            Tb = r.tsave[-1] if r.tsave else None
+        mx = r.stop.get("maxit") if r.stop else None
+        must_have_stopped = (mx is not None and mx < nt - 1) or \
+            (Tb is not None and fin and (Tb - r.f_before[1]) < (nt - 2) * hmin_obs * (1 - 1e-9))
+        if fin and must_have_stopped:
+            bad("T9", "call did not terminate within %d ticks on a finite trajectory (tottime=%r maxit=%r, smallest tick %r)" %
+                (nt, Tb, mx, hmin_obs))
+        elif fin:
+            stats["discard-long"] += 1  # legitimately long run (tiny ticks): not a liveness failure
+        else:
+            stats["discard-nonfinite"] += 1  # NaN state: `time >= tottime` never holds; outside the property
         return out
 
     if r.outcome == "raised":
@@ -143,6 +174,12 @@ def check_c07(r, ex, stats):
     if r.qn is not None and N > 0 and (r.qn[0] != full[-1].dig_out or r.qn[1] != full[-1].t_out):
         bad("T6", "final solver state is not the output of the last full step", cls + "/qn")
 
+    ticks_ok = all(bool(np.all(np.isfinite(t.dt))) and t.dtmin > 0 for t in tr.ticks)
+    if not ticks_ok:
+        # unphysical state (negative pressure/height...): the time-step source itself
+        # returned NaN/inf/<=0; nothing of T2-T7 is defined on such a trajectory
+        stats["discard-badtick"] += 1
+        return [v for v in out if v.inv in ("T1", "T8")]
     if not traj_finite or not all(math.isfinite(x) for x in times):
         if ref_finite and len(r.candidates) == 1:
             bad("T5", "trajectory became non-finite although the undisturbed trajectory from the same field is finite",
@@ -289,7 +326,7 @@ def check_c08(r, ex, stats):
     # ---- P8: fields returned by / given to earlier calls keep their value -------
     stats["P8"] += 1
     for k, v in r.held_before.items():
-        if r.held_after.get(k) != v:
+        if okey(r.held_after.get(k)) != okey(v):
             bad("P8", "field %r held by the caller changed during op %d: %r -> %r" % (k, r.i, v, r.held_after.get(k)),
                 cls + "/held")
             break
@@ -322,7 +359,7 @@ def check_c08(r, ex, stats):
     stats["P1-" + label] += 1
     if not crashed:
         end = traj.states[off + N]
-        if r.qn is not None and (r.qn[0] != digest_field(end) or r.qn[1] != float(end.time)):
+        if r.qn is not None and (r.qn[0] != digest_field(end) or float(r.qn[1]).hex() != float(end.time).hex()):
             bad("P1", "final solver state differs from model state %d" % N, cls + "/final")
     if crashed:
         _check_monitors(r, traj, off, N, stats, bad, prefix_ok=True)
@@ -342,7 +379,7 @@ def check_c08(r, ex, stats):
             stats["P2"] += 1
             ref = traj.side(off + kk, s.dt)
             # the model steps by (s - t_k) exactly like a user calling step()
-            if s.t_in != float(traj.states[off + kk].time) or s.dig_in != traj.digs[off + kk]:
+            if not feq(s.t_in, traj.states[off + kk].time) or s.dig_in != traj.digs[off + kk]:
                 bad("P2", "snapshot %d was not taken from model state %d" % (k, kk), cls + "/from")
             elif digest_field(ref) != sn[0]:
                 d = max(float(np.max(np.abs(np.nan_to_num(a - b)))) for a, b in zip(sn[4], ref.data))
@@ -357,7 +394,7 @@ def check_c08(r, ex, stats):
     if len(res) == 1 and not side and N >= 1:
         sn = res[0]
         end = traj.states[off + N]
-        if sn[0] == digest_field(end) and sn[1] == float(end.time):
+        if sn[0] == digest_field(end) and feq(sn[1], end.time):
             stats["P4"] += 1
             if sn[2] != r.itstart + N:
                 bad("P4", "returned final state carries it=%d, expected cumulative count %d" % (sn[2], r.itstart + N),
@@ -424,7 +461,7 @@ def _check_monitors(r, traj, off, N, stats, bad, prefix_ok):
             k = off + (j - r.itstart)
             if k >= len(traj.states):
                 break
-            if new_t[a] != float(traj.states[k].time):
+            if not feq(new_t[a], traj.states[k].time):
                 bad("P5", "monitor '%s' entry it=%d has time %r, state time is %r" %
                     (ent["name"], j, new_t[a], float(traj.states[k].time)), trig + "/time")
                 break
